@@ -154,6 +154,37 @@ pub fn gen(seed: u64, thorough: bool) {
             out.line(&format!("c02 {}", hex(&m2)));
         }
     }
+    // (c0) number-shape sweep: an integer part of every length 0..70 (the 32-lane loop of
+    // do_skip_number switches regime at 32/64), a fraction part of selected lengths, and every
+    // small grammar fragment after it; as a whole document and inside an array
+    let tails: [&[u8]; 16] = [b"", b".", b".5", b".5.5", b".5e1", b".5e", b"e1", b"e", b"e+", b"e+1", b".5e1.5", b"..5", b".e1", b"E-2", b".5E+", b"-"];
+    let fracs: [usize; 7] = [0, 1, 2, 29, 30, 31, 32];
+    for neg in [false, true] {
+        for il in 0..=70usize {
+            for fl in fracs {
+                for tail in tails.iter() {
+                    if !thorough && (il + fl + tail.len()) % 2 == 1 && il > 3 && il != 31 && il != 32 && il != 33 && il != 63 && il != 64 && il != 65 {
+                        continue;
+                    }
+                    let mut t = Vec::new();
+                    if neg { t.push(b'-'); }
+                    for k in 0..il { t.push(b'1' + (k % 9) as u8); }
+                    if fl > 0 {
+                        t.push(b'.');
+                        for k in 0..fl { t.push(b'0' + (k % 10) as u8); }
+                    }
+                    t.extend_from_slice(tail);
+                    out.line(&format!("c02 {}", hex(&t)));
+                    if thorough || il % 3 == 0 {
+                        let mut a = b" [".to_vec();
+                        a.extend_from_slice(&t);
+                        a.extend_from_slice(b" ,1]");
+                        out.line(&format!("c02 {}", hex(&a)));
+                    }
+                }
+            }
+        }
+    }
     // (c) sweeps: a string/number/whitespace token of every length at every offset
     let step = if thorough { 1 } else { 7 };
     for off in (0..=64).step_by(step) {
